@@ -125,6 +125,42 @@ func checkC06(c *Ctx) {
 			}
 		}
 	}
+	// completeCommand by what it does, should it have become a method of a small type around the waiter map: the one
+	// function of the package that sends on a client's error channel; its waiter map is then its receiver, which is
+	// ClientIO.awaitingCmds at every call
+	ccMap := "p0->" + kCIO + "awaitingCmds"
+	ccName := "completeCommand"
+	if cc == nil {
+		var cands []*ssa.Function
+		for _, fn := range p.ModFuncs {
+			if funcPkgPath(fn) != modPath+"/server" || fn.Parent() != nil {
+				continue
+			}
+			has := false
+			eachInstr(fn, func(in ssa.Instruction) {
+				if s, ok := in.(*ssa.Send); ok && strings.Contains(s.Chan.Type().String(), "error") {
+					has = true
+				}
+			})
+			if has {
+				cands = append(cands, fn)
+			}
+		}
+		if len(cands) == 1 && len(cands[0].Params) == 3 {
+			if _, isMap := cands[0].Params[0].Type().Underlying().(*types.Map); isMap {
+				okArg := len(callIndexOf(p).callers[cands[0]]) > 0 && !callIndexOf(p).asValue[cands[0]]
+				for _, r := range callIndexOf(p).callers[cands[0]] {
+					ak := NewKeyer(p, r.In).Key(r.Instr.(ssa.CallInstruction).Common().Args[0])
+					if !strings.HasSuffix(ak, "->"+kCIO+"awaitingCmds") {
+						okArg = false
+					}
+				}
+				if okArg {
+					cc, ccMap, ccName = cands[0], "p0", cands[0].Name()
+				}
+			}
+		}
+	}
 	if exec == nil || abort == nil || cc == nil {
 		c.Unresolved("C06.2", "ClientIO", "anchor missing")
 		return
@@ -274,12 +310,37 @@ func checkC06(c *Ctx) {
 	nNil := 0
 	for _, r := range refs {
 		ci, ok := r.Instr.(ssa.CallInstruction)
-		if !ok || len(ci.Common().Args) < 3 || !isNilConst(ci.Common().Args[2]) {
+		if !ok || len(ci.Common().Args) < 3 {
+			continue
+		}
+		okIn := execFns[r.In]
+		okAfter := okIn
+		if !isNilConst(ci.Common().Args[2]) {
+			// the outcome is what a private helper of Exec returns (`completeCommand(id, srv.apply(cmd))`): its
+			// returns that can deliver nil come after the state updates, which it makes itself
+			hc, isCall := ci.Common().Args[2].(*ssa.Call)
+			if !isCall || hc.Call.StaticCallee() == nil || !execFns[hc.Call.StaticCallee()] || hc.Call.StaticCallee() == r.In || hc.Block() != r.Instr.Block() {
+				continue
+			}
+			hf := hc.Call.StaticCallee()
+			exits := successExits(NewFlow(p, hf), 0)
+			if len(exits) == 0 {
+				continue
+			}
+			nNil++
+			for _, e := range exits {
+				for _, u := range stateUpdates {
+					if u.Parent() != hf || !precedes(u, e.Ret) {
+						okAfter = false
+					}
+				}
+			}
+			c.Check(okIn && okAfter && len(stateUpdates) >= 3, "C06.3", "success outcome only after execution", p.InstrPos(r.Instr),
+				"completeCommand(id, "+shortName(hf)+"(cmd)): the helper returns nil only after the digest, counter and sequence-number updates of that command",
+				"success outcome sent from "+shortName(r.In)+" or before the state update")
 			continue
 		}
 		nNil++
-		okIn := execFns[r.In]
-		okAfter := okIn
 		for _, u := range stateUpdates {
 			if !precedes(u, r.Instr) {
 				okAfter = false
@@ -334,8 +395,8 @@ func checkC06(c *Ctx) {
 				}
 			})
 		}
-		c.Check(setEq(sendFns, []string{"(*hs/server.ClientIO).completeCommand"}), "C06.4", "outcomes are sent only by completeCommand", p.FuncPos(cc),
-			"the only send on an error channel in package server is in completeCommand", "sends in: "+join(sendFns))
+		c.Check(setEq(sendFns, []string{shortName(cc)}), "C06.4", "outcomes are sent only by completeCommand", p.FuncPos(cc),
+			"the only send on an error channel in package server is in "+ccName, "sends in: "+join(sendFns))
 		fcc := NewFlow(p, cc)
 		okDel := false
 		eachInstr(cc, func(in ssa.Instruction) {
@@ -346,7 +407,7 @@ func checkC06(c *Ctx) {
 			chK := fcc.K.Key(s.Chan)
 			facts := fcc.At(in)
 			// the waiter's key, whatever expression it is (the id parameter, or the id of the command parameter)
-			pre := "p0->" + kCIO + "awaitingCmds["
+			pre := ccMap + "["
 			if !strings.HasPrefix(chK, pre) || !strings.HasSuffix(chK, "]#0") {
 				return
 			}
@@ -361,7 +422,7 @@ func checkC06(c *Ctx) {
 					return false
 				}
 				b, ok := call.Call.Value.(*ssa.Builtin)
-				return ok && b.Name() == "delete" && fcc.K.Key(call.Call.Args[0]) == "p0->"+kCIO+"awaitingCmds" && fcc.K.Key(call.Call.Args[1]) == waiterKey
+				return ok && b.Name() == "delete" && fcc.K.Key(call.Call.Args[0]) == ccMap && fcc.K.Key(call.Call.Args[1]) == waiterKey
 			})
 			okDel = w == nil
 		})
